@@ -200,3 +200,13 @@ func (s *serverEnc) Encode(it Item, i int) []byte {
 }
 
 func closesAfter(k string) bool { return k == "cut" || k == "trunc" }
+
+// EncodeScript returns the bytes of every item of a server script (for drivers that deliver them on their own).
+func EncodeScript(rev int, compressed, insert bool, items []Item) [][]byte {
+	enc := &serverEnc{rev: rev, compressed: compressed, insert: insert}
+	out := make([][]byte, len(items))
+	for i, it := range items {
+		out[i] = enc.Encode(it, i+1)
+	}
+	return out
+}
